@@ -26,4 +26,7 @@ func C06(r *core.Run) {
 	// a cached reflection object built for one descriptor and handed to a message of another
 	// makes protobuf-go panic ("field descriptor does not belong to this message")
 	rules.MemoKeys(r, []string{"internal/codec", "lib/j5reflect", "lib/j5schema"}, "memo_sites")
+	// a decode into a type that cannot be reflected fails; what the failed build leaves in the codec's
+	// schema cache is what the next decode finds (a kept ref to a removed placeholder is a nil dereference)
+	registeredRefsRolledBack(r)
 }
